@@ -80,6 +80,10 @@ Clauses(T) ==
        \* cstruct object does not provide, and hints naming it do not name the field's actual type (finding F40)
        \cup (IF \A j \in 1..Len(T.obs.scopes) : ToSet(T.obs.scopes[j].inline) \cap {c.name : c \in ExpectedClasses(T)} = {}
              THEN {} ELSE {"shadow-class"})
+       \* a name a hint reaches through the stub class (cstruct.X) is a class or alias declared at its top level, or a built-in type
+       \cup (IF \A j \in 1..Len(T.obs.scopes) :
+                  ToSet(T.obs.scopes[j].qual) \subseteq {c.name : c \in ExpectedClasses(T)} \cup {a[1] : a \in ExpectedAliases(T)} \cup BuiltinNames
+             THEN {} ELSE {"undeclared-hint"})
 
 VARIABLE tid
 Init == tid = 1
